@@ -1,6 +1,6 @@
-/* F21: celt_fir_sse4_1() saturates at -32768, celt_fir_c() at -32767 (fixed-point build, any CPU with SSE4.1).
+/* C15F1: celt_fir_sse4_1() saturates at -32768, celt_fir_c() at -32767 (fixed-point build, any CPU with SSE4.1).
  * cc -DFIXED_POINT=1 -DOPUS_BUILD -DVAR_ARRAYS -DOPUS_HAVE_RTCD -DOPUS_X86_MAY_HAVE_SSE -DOPUS_X86_MAY_HAVE_SSE2 -DOPUS_X86_MAY_HAVE_SSE4_1 \
- *    -DOPUS_X86_MAY_HAVE_AVX2 -I/repo/include -I/repo/celt -I/repo tools/repro_F21.c build/fix-opt/libopus.a -lm && ./a.out
+ *    -DOPUS_X86_MAY_HAVE_AVX2 -I/repo/include -I/repo/celt -I/repo tools/repro_C15F1.c build/fix-opt/libopus.a -lm && ./a.out
  * prints "C -32767  SSE4.1 -32768" */
 #include <stdio.h>
 #include "arch.h"
